@@ -1,11 +1,1090 @@
-//! C25 — not built yet (see DESIGN.md §5 C25).
+//! C25 — the query result cache never serves a stale or foreign result (DESIGN §5 C25).
+//!
+//! Two drivers of the same protocol (look up by `QuerySignature::from_sql`; on a miss execute and
+//! insert with the extracted table set; on a write `invalidate_table`):
+//!
+//! * **lib** — the harness drives `vibesql_executor::cache::{QuerySignature, QueryResultCache,
+//!   extract_tables_from_select_with_views}` the way `tests/compliance/sqllogictest_runner.rs` and the slt
+//!   adapter do (invalidate the written table's unqualified name). Explicit-state BFS over
+//!   (Database, cache contents) with dedup, plus a stateless guard pass.
+//! * **adapter** — the repository's own cache user `tests/sqllogictest/db_adapter.rs` (compiled in
+//!   by `#[path]`), driven through `AsyncDB::run`; the uncached execution is a twin adapter with
+//!   `SQLLOGICTEST_CACHE_ENABLED=0` that receives the same statements. Its database is private, so
+//!   histories are explored by replay from scratch (plain tree, no dedup).
+//!
+//! Oracle (both): at every read the served rows equal, as a bag and by value, the rows of an
+//! uncached execution of the same text on the current database; (lib) any two query texts of the
+//! alphabet with equal `QuerySignature` have equal uncached results in every reached state.
 
-pub fn run(_tier: &str) -> i32 {
-    eprintln!("MACHINERY-ERROR C25 is not built yet");
-    2
+use std::collections::{BTreeMap, BTreeSet};
+use std::panic::{catch_unwind, AssertUnwindSafe};
+use std::sync::atomic::{AtomicU64, Ordering};
+use std::sync::{Arc, Mutex};
+
+use serde_json::{json, Value};
+use vibesql_ast::Statement;
+use vibesql_executor::cache::{extract_tables_from_select_with_views, tables_affected_by_write, QueryResultCache, QuerySignature};
+use vibesql_executor::schema::CombinedSchema;
+use vibesql_storage::{Database, Row};
+use vibesql_types::SqlValue;
+
+use vcore::exec::{self, ErrClass, Out};
+use vcore::histmc::{self, Caps, Node, Spec};
+use vcore::report::Report;
+use vcore::val;
+
+use crate::common;
+
+// ------------------------------------------------------------------------------------------------
+// alphabet
+// ------------------------------------------------------------------------------------------------
+
+pub const PRELUDE: &[&str] = &[
+    "CREATE TABLE t (a INT, c VARCHAR(10))",
+    "CREATE TABLE u (a INT, d INT)",
+    "CREATE TABLE q (\"k\" INT, \"K\" INT)",
+    "CREATE VIEW v AS SELECT a, d FROM u WHERE d > 0",
+    "CREATE VIEW v2 AS SELECT a FROM v",
+    "INSERT INTO t VALUES (1, 'a'), (2, 'A'), (3, 'a b'), (4, 'a  b')",
+    "INSERT INTO u VALUES (1, 10), (2, 20)",
+    "INSERT INTO q VALUES (1, 2)",
+    // a parent/child pair whose foreign key rewrites the child when the parent is written
+    "CREATE TABLE p (id INT PRIMARY KEY, x INT)",
+    "CREATE TABLE c (id INT, pid INT, FOREIGN KEY (pid) REFERENCES p (id) ON DELETE CASCADE ON UPDATE CASCADE)",
+    "INSERT INTO p VALUES (1, 0), (2, 0)",
+    "INSERT INTO c VALUES (10, 1), (20, 2)",
+];
+
+/// (group, label, sql). The group is the slice the deeper searches are run on; the label names the
+/// way the text references its tables (it is the `read` key of a violation signature).
+pub const READS: &[(&str, &str, &str)] = &[
+    // texts that differ only inside a string literal (must not share) / only outside (may share)
+    ("lit", "lit-a", "SELECT a FROM t WHERE c = 'a'"),
+    ("lit", "lit-A", "SELECT a FROM t WHERE c = 'A'"),
+    ("lit", "lit-a-kwcase", "select a from t where c = 'a'"),
+    ("lit", "lit-a-ws", "SELECT  a  FROM t   WHERE c = 'a'"),
+    ("litws", "lit-sp1", "SELECT a FROM t WHERE c = 'a b'"),
+    ("litws", "lit-sp2", "SELECT a FROM t WHERE c = 'a  b'"),
+    ("sellit", "sel-x", "SELECT 'x' FROM q"),
+    ("sellit", "sel-X", "SELECT 'X' FROM q"),
+    ("qident", "qid-k", "SELECT \"k\" FROM q"),
+    ("qident", "qid-K", "SELECT \"K\" FROM q"),
+    // a line comment ends at the newline: the two texts are different statements
+    ("comment", "comment-newline", "SELECT a FROM t -- x\nWHERE a = 1"),
+    ("comment", "comment-space", "SELECT a FROM t -- x WHERE a = 1"),
+    // texts that differ only in a numeric literal
+    ("num", "num-1", "SELECT a FROM t WHERE a = 1"),
+    ("num", "num-2", "SELECT a FROM t WHERE a = 2"),
+    // a table that is written through a foreign-key action of a statement on another table
+    ("fk", "fk-child", "SELECT id, pid FROM c"),
+    ("fk", "fk-join", "SELECT p.id, c.id FROM p JOIN c ON c.pid = p.id"),
+    // FROM-clause shapes that reference u
+    ("from", "scan", "SELECT a, d FROM u"),
+    ("from", "star", "SELECT * FROM u"),
+    ("from", "alias", "SELECT z.a FROM u AS z"),
+    ("from", "qualified", "SELECT a FROM \"public\".u"),
+    ("from", "count-star", "SELECT COUNT(*) FROM u"),
+    ("from", "join", "SELECT t.a, u.d FROM t JOIN u ON t.a = u.a"),
+    ("from", "comma-join", "SELECT t.a FROM t, u WHERE t.a = u.a"),
+    ("from", "derived", "SELECT x.a FROM (SELECT a FROM u) AS x"),
+    ("setop", "union-right", "SELECT a FROM t UNION SELECT a FROM u"),
+    ("setop", "union-all-3rd", "SELECT a FROM t UNION ALL SELECT a FROM t UNION ALL SELECT a FROM u"),
+    ("setop", "except-right", "SELECT a FROM t EXCEPT SELECT a FROM u"),
+    ("setop", "intersect-right", "SELECT a FROM t INTERSECT SELECT a FROM u"),
+    ("cte", "cte", "WITH w AS (SELECT a FROM u) SELECT a FROM w"),
+    ("cte", "cte-join", "WITH w AS (SELECT a FROM u) SELECT t.a FROM t JOIN w ON t.a = w.a"),
+    ("view", "view", "SELECT a, d FROM v"),
+    ("view", "view-in-subquery", "SELECT a FROM t WHERE a IN (SELECT a FROM v)"),
+    ("view", "view-join", "SELECT t.a FROM t JOIN v ON t.a = v.a"),
+    ("view", "view-nested", "SELECT a FROM v2"),
+    // one text per expression form through which a subquery on u can be reached from a query on t
+    ("subq1", "in-subquery", "SELECT a FROM t WHERE a IN (SELECT a FROM u)"),
+    ("subq1", "not-in-subquery", "SELECT a FROM t WHERE a NOT IN (SELECT a FROM u)"),
+    ("subq1", "exists", "SELECT a FROM t WHERE EXISTS (SELECT 1 FROM u WHERE u.a = t.a)"),
+    ("subq1", "quantified", "SELECT a FROM t WHERE a > ALL (SELECT a FROM u)"),
+    ("subq1", "nested-in", "SELECT a FROM t WHERE a IN (SELECT a FROM t WHERE a IN (SELECT a FROM u))"),
+    ("subq2", "scalar-select-list", "SELECT a, (SELECT COUNT(*) FROM u) FROM t"),
+    ("subq2", "scalar-binop", "SELECT a FROM t WHERE a < (SELECT COUNT(*) FROM u)"),
+    ("subq2", "scalar-unary", "SELECT a FROM t WHERE NOT (a < (SELECT COUNT(*) FROM u))"),
+    ("subq2", "scalar-function-arg", "SELECT a FROM t WHERE a = COALESCE((SELECT MAX(a) FROM u), 0)"),
+    ("subq2", "scalar-aggregate-arg", "SELECT MAX(a + (SELECT COUNT(*) FROM u)) FROM t"),
+    ("subq3", "scalar-case", "SELECT CASE WHEN a < (SELECT COUNT(*) FROM u) THEN 1 ELSE 0 END FROM t"),
+    ("subq3", "scalar-in-list", "SELECT a FROM t WHERE a IN (0, (SELECT MAX(a) FROM u))"),
+    ("subq3", "scalar-between", "SELECT a FROM t WHERE a BETWEEN 0 AND (SELECT MAX(a) FROM u)"),
+    ("subq3", "scalar-is-null", "SELECT a FROM t WHERE (SELECT MAX(a) FROM u) IS NULL"),
+    ("subq3", "scalar-cast", "SELECT a FROM t WHERE a = CAST((SELECT MAX(a) FROM u) AS INT)"),
+    ("subq4", "having", "SELECT a FROM t GROUP BY a HAVING a > (SELECT MIN(a) FROM u)"),
+    ("subq4", "order-by", "SELECT a FROM t ORDER BY (SELECT COUNT(*) FROM u), a"),
+    ("subq4", "join-on", "SELECT t.a FROM t JOIN q ON t.a IN (SELECT a FROM u)"),
+    ("subq4", "like-pattern", "SELECT a FROM t WHERE c LIKE (SELECT MIN(c) FROM t WHERE a IN (SELECT a FROM u))"),
+];
+
+/// (label, sql). The label is the `cause` key of a violation signature (statement kind + target).
+pub const WRITES: &[(&str, &str)] = &[
+    ("insert:t", "INSERT INTO t VALUES (5, 'a')"),
+    ("update:t", "UPDATE t SET c = 'A' WHERE a = 1"),
+    ("delete:t", "DELETE FROM t WHERE a = 2"),
+    ("insert-select:t", "INSERT INTO t SELECT a, 'a' FROM u"),
+    ("insert:u", "INSERT INTO u VALUES (3, 30)"),
+    ("update:u", "UPDATE u SET d = 0 WHERE a = 1"),
+    ("delete:u", "DELETE FROM u WHERE a = 2"),
+    ("delete-all:u", "DELETE FROM u"),
+    ("truncate:u", "TRUNCATE TABLE u"),
+    ("insert:q", "INSERT INTO q VALUES (3, 4)"),
+    ("drop:u", "DROP TABLE u"),
+    ("create:u", "CREATE TABLE u (a INT, d INT)"),
+    ("drop-view:v", "DROP VIEW v"),
+    ("create-view:v", "CREATE VIEW v AS SELECT a, d FROM u WHERE d > 10"),
+];
+
+/// Writes for the `fk` slice (also part of the full alphabet).
+pub const FK_WRITES: &[(&str, &str)] = &[
+    ("delete-parent:p", "DELETE FROM p WHERE id = 1"),
+    ("update-parent-key:p", "UPDATE p SET id = 5 WHERE id = 2"),
+    ("insert:c", "INSERT INTO c VALUES (30, 2)"),
+    ("delete:c", "DELETE FROM c WHERE id = 10"),
+];
+
+/// Extra statements for the adapter driver (its own dispatch decides what each of them does to the cache).
+pub const ADAPTER_EXTRA_WRITES: &[(&str, &str)] = &[
+    ("begin", "BEGIN"),
+    ("rollback", "ROLLBACK"),
+    ("commit", "COMMIT"),
+    ("drop-qualified:u", "DROP TABLE \"public\".u"),
+    ("alter-add-column:u", "ALTER TABLE u ADD COLUMN e INT"),
+];
+
+pub fn label_of(sql: &str) -> String {
+    for (_, l, s) in READS {
+        if *s == sql {
+            return l.to_string();
+        }
+    }
+    for (l, s) in WRITES.iter().chain(ADAPTER_EXTRA_WRITES.iter()).chain(FK_WRITES.iter()) {
+        if *s == sql {
+            return l.to_string();
+        }
+    }
+    // not a menu statement (hand-written replay): first two words
+    sql.split_whitespace().take(2).collect::<Vec<_>>().join(" ").to_lowercase()
 }
 
-pub fn replay(_case: &serde_json::Value) -> i32 {
-    eprintln!("MACHINERY-ERROR C25 is not built yet");
-    2
+pub fn is_read(sql: &str) -> bool {
+    let s = sql.trim_start().to_ascii_lowercase();
+    s.starts_with("select") || s.starts_with("with")
+}
+
+// ------------------------------------------------------------------------------------------------
+// the protocol, as its users run it (lib driver)
+// ------------------------------------------------------------------------------------------------
+
+fn result_schema(rows: &[Row]) -> CombinedSchema {
+    use vibesql_catalog::{ColumnSchema, TableSchema};
+    let cols = match rows.first() {
+        Some(r) => r
+            .values
+            .iter()
+            .enumerate()
+            .map(|(i, v)| ColumnSchema { name: format!("col{}", i), data_type: v.get_type(), nullable: v.is_null(), default_value: None })
+            .collect(),
+        None => vec![],
+    };
+    CombinedSchema::from_table("result".to_string(), TableSchema::new("result".to_string(), cols))
+}
+
+/// One cached SELECT: returns what the protocol serves, whether it was a hit, and on a miss that
+/// was inserted the table set the entry was registered under.
+pub fn proto_read(cache: &QueryResultCache, db: &Database, sql: &str) -> (Out, bool, Option<Vec<String>>) {
+    let stmt = match exec::parse(sql) {
+        Ok(Statement::Select(s)) => s,
+        Ok(_) => return (Out::Err(ErrClass::Other, "not a SELECT".into()), false, None),
+        Err(e) => return (Out::Err(ErrClass::Parse, e), false, None),
+    };
+    let sig = QuerySignature::from_sql(sql);
+    if let Some((rows, _schema)) = cache.get(&sig) {
+        return (Out::Rows(rows.into_iter().map(|r| r.values).collect()), true, None);
+    }
+    let out = exec::select_stmt(db, &stmt);
+    let mut registered = None;
+    if let Out::Rows(rows) = &out {
+        let rows: Vec<Row> = rows.iter().map(|v| Row::new(v.clone())).collect();
+        let tables = extract_tables_from_select_with_views(&stmt, &db.catalog);
+        let mut tv: Vec<String> = tables.iter().cloned().collect();
+        tv.sort();
+        registered = Some(tv);
+        let schema = result_schema(&rows);
+        cache.insert(sig, rows, schema, tables);
+    }
+    (out, false, registered)
+}
+
+/// What a user of the cache does when it executes a non-SELECT statement (as the slt adapter):
+/// INSERT / UPDATE / DELETE / TRUNCATE invalidate every table `tables_affected_by_write` names for
+/// the written table (everything if it cannot bound the set); DROP / CREATE TABLE and view DDL
+/// invalidate the object's name; for any other statement the library gives no guidance and the
+/// driver clears the cache (conservative, so that every violation the lib driver reports is the
+/// library's).
+pub fn proto_write(cache: &QueryResultCache, db: &Database, sql: &str) {
+    let Ok(stmt) = exec::parse(sql) else { return };
+    let written = |table: &str| match tables_affected_by_write(table, &db.catalog) {
+        Some(tables) => {
+            for t in &tables {
+                cache.invalidate_table(t);
+            }
+        }
+        None => cache.clear(),
+    };
+    match &stmt {
+        Statement::Insert(s) => written(&s.table_name),
+        Statement::Update(s) => written(&s.table_name),
+        Statement::Delete(s) => written(&s.table_name),
+        Statement::TruncateTable(s) => {
+            for t in &s.table_names {
+                written(t);
+            }
+        }
+        Statement::DropTable(s) => cache.invalidate_table(&s.table_name),
+        Statement::CreateTable(s) => cache.invalidate_table(&s.table_name),
+        Statement::CreateView(s) => cache.invalidate_table(&s.view_name),
+        Statement::DropView(s) => cache.invalidate_table(&s.view_name),
+        _ => cache.clear(),
+    }
+}
+
+/// Initial states of the lib driver: 0 = prelude; 1 = prelude + an AFTER INSERT row trigger on `t`
+/// that writes `q` (trigger bodies parsed from SQL text are stored as token dumps, so the
+/// statement is built as an AST with `TriggerAction::RawSql`).
+pub const LIB_INITS: &[&str] = &["plain", "trigger-on-t-writes-q"];
+
+pub fn lib_init(init: usize) -> Database {
+    let mut db = exec::fresh(PRELUDE);
+    if init == 1 {
+        let stmt = Statement::CreateTrigger(vibesql_ast::CreateTriggerStmt {
+            trigger_name: "TRG_T_Q".to_string(),
+            timing: vibesql_ast::TriggerTiming::After,
+            event: vibesql_ast::TriggerEvent::Insert,
+            table_name: "T".to_string(),
+            granularity: vibesql_ast::TriggerGranularity::Row,
+            when_condition: None,
+            triggered_action: vibesql_ast::TriggerAction::RawSql("INSERT INTO q VALUES (9, 9)".to_string()),
+        });
+        let o = exec::exec_stmt(&mut db, &stmt);
+        if !o.is_ok() {
+            panic!("harness prelude: CREATE TRIGGER failed: {}", o.brief());
+        }
+    }
+    db
+}
+
+/// Sequential lib driver (confirmation, minimisation, replay).
+pub struct LibRun {
+    pub db: Database,
+    pub cache: QueryResultCache,
+    /// signature hash -> text that inserted the live entry
+    pub owner: BTreeMap<u64, String>,
+}
+
+pub struct StepObs {
+    pub op: String,
+    pub uncached: Out,
+    /// reads only
+    pub served: Option<Out>,
+    pub hit: bool,
+    pub hit_owner: Option<String>,
+}
+
+impl LibRun {
+    pub fn new(init: usize) -> Self {
+        LibRun { db: lib_init(init), cache: QueryResultCache::new(100_000), owner: BTreeMap::new() }
+    }
+    pub fn step(&mut self, op: &str) -> StepObs {
+        if is_read(op) {
+            let uncached = exec::select(&self.db, op);
+            let h = QuerySignature::from_sql(op).hash();
+            let (served, hit, reg) = proto_read(&self.cache, &self.db, op);
+            let hit_owner = if hit { self.owner.get(&h).cloned() } else { None };
+            if reg.is_some() {
+                self.owner.insert(h, op.to_string());
+            }
+            StepObs { op: op.to_string(), uncached, served: Some(served), hit, hit_owner }
+        } else {
+            proto_write(&self.cache, &self.db, op); // before the statement executes, like the adapter
+            let uncached = exec::exec(&mut self.db, op);
+            StepObs { op: op.to_string(), uncached, served: None, hit: false, hit_owner: None }
+        }
+    }
+}
+
+/// Do the served and the uncached result of one read differ? (bag of rows by value; a served
+/// result for a text that no longer executes differs; two errors do not.)
+pub fn differs(served: &Out, uncached: &Out) -> bool {
+    match (served, uncached) {
+        (Out::Rows(a), Out::Rows(b)) => !val::same_bag(a, b),
+        (Out::Rows(_), Out::Err(..)) => true,
+        (Out::Err(..), Out::Rows(_)) => true,
+        _ => false,
+    }
+}
+
+/// Lib driver: does the *last* step of `hist` serve a result different from the uncached one?
+fn lib_last_differs(init: usize, hist: &[String]) -> Option<String> {
+    let mut r = LibRun::new(init);
+    let mut last = None;
+    for op in hist {
+        last = Some(r.step(op));
+    }
+    let o = last?;
+    let served = o.served.as_ref()?;
+    if differs(served, &o.uncached) {
+        Some(format!(
+            "`{}` served {} ({}) but an uncached execution returns {}",
+            o.op,
+            served.brief(),
+            match (&o.hit, &o.hit_owner) {
+                (true, Some(t)) if *t != o.op => format!("cache hit on the entry of `{}`", t),
+                (true, _) => "cache hit".to_string(),
+                _ => "miss".to_string(),
+            },
+            o.uncached.brief()
+        ))
+    } else {
+        None
+    }
+}
+
+fn signature_of(driver: &str, minimal: &[String]) -> Vec<(&'static str, String)> {
+    let last = minimal.last().cloned().unwrap_or_default();
+    let mut via: Vec<String> = vec![];
+    let mut cause: Vec<String> = vec![];
+    for op in &minimal[..minimal.len().saturating_sub(1)] {
+        if is_read(op) {
+            if *op != last {
+                via.push(label_of(op));
+            }
+        } else {
+            cause.push(label_of(op));
+        }
+    }
+    let kind = if !via.is_empty() && cause.is_empty() { "foreign" } else { "stale" };
+    vec![
+        ("driver", driver.to_string()),
+        ("kind", kind.to_string()),
+        ("read", label_of(&last)),
+        ("via", if via.is_empty() { "-".into() } else { via.join("+") }),
+        ("cause", if cause.is_empty() { "-".into() } else { cause.join("+") }),
+    ]
+}
+
+/// Confirm twice from scratch, minimise, record.
+fn report_case<F: Fn(&[String]) -> Option<String>>(driver: &str, init: usize, hist: &[String], fails: F, rep: &Report) {
+    let a = fails(hist);
+    let b = fails(hist);
+    if a.is_none() || b.is_none() {
+        rep.machinery_error(format!("C25 {}: case did not reproduce from scratch ({:?} / {:?}): {:?}", driver, a, b, hist));
+        return;
+    }
+    let minimal = common::minimise(hist, |h| fails(h).is_some());
+    let what = fails(&minimal).unwrap_or_else(|| a.clone().unwrap());
+    let sig = signature_of(driver, &minimal);
+    rep.violation(
+        &sig,
+        format!("[{} driver] {}", driver, what),
+        json!({"driver": driver, "init": init, "prelude": PRELUDE, "steps": minimal, "found_as": hist}),
+    );
+}
+
+// ------------------------------------------------------------------------------------------------
+// lib driver: explicit-state search
+// ------------------------------------------------------------------------------------------------
+
+#[derive(Clone)]
+pub struct Entry {
+    text: String,
+    rows: Vec<Vec<SqlValue>>,
+    tables: Vec<String>,
+    /// length of the history when the entry was inserted (label only; not part of the state key)
+    born: usize,
+}
+
+#[derive(Default)]
+struct Counters {
+    reads: AtomicU64,
+    hits: AtomicU64,
+    hits_other_text: AtomicU64,
+    misses_inserted: AtomicU64,
+    read_errors: AtomicU64,
+    writes: AtomicU64,
+    entries_invalidated: AtomicU64,
+    entries_surviving_a_write: AtomicU64,
+    pair_checks: AtomicU64,
+}
+
+struct LibSpec {
+    init: usize,
+    alphabet: Vec<String>,
+    /// classes of alphabet reads with equal signature (size >= 2)
+    classes: Vec<Vec<String>>,
+    c: Counters,
+    outcomes: Mutex<BTreeSet<u64>>,
+    ok_reads: Mutex<BTreeSet<String>>,
+    /// failing cases already confirmed + minimised, by (read, entry owner, writes since the entry was inserted)
+    seen_cases: Mutex<BTreeSet<String>>,
+    failing: AtomicU64,
+}
+
+fn rebuild(m: &[Entry]) -> QueryResultCache {
+    let cache = QueryResultCache::new(100_000);
+    for e in m {
+        let rows: Vec<Row> = e.rows.iter().map(|v| Row::new(v.clone())).collect();
+        let schema = result_schema(&rows);
+        cache.insert(QuerySignature::from_sql(&e.text), rows, schema, e.tables.iter().cloned().collect());
+    }
+    cache
+}
+
+impl LibSpec {
+    fn new(init: usize, alphabet: Vec<String>) -> Self {
+        let mut by_sig: BTreeMap<u64, Vec<String>> = BTreeMap::new();
+        for op in alphabet.iter().filter(|o| is_read(o)) {
+            by_sig.entry(QuerySignature::from_sql(op).hash()).or_default().push(op.clone());
+        }
+        let classes = by_sig.into_values().filter(|v| v.len() >= 2).collect();
+        LibSpec {
+            init,
+            alphabet,
+            classes,
+            c: Counters::default(),
+            outcomes: Mutex::new(BTreeSet::new()),
+            ok_reads: Mutex::new(BTreeSet::new()),
+            seen_cases: Mutex::new(BTreeSet::new()),
+            failing: AtomicU64::new(0),
+        }
+    }
+
+    /// every two texts with equal signature must have equal uncached results in this state
+    fn pair_check(&self, db: &Database, hist: &[String], rep: &Report) {
+        for class in &self.classes {
+            let outs: Vec<Out> = class.iter().map(|q| exec::select(db, q)).collect();
+            self.c.pair_checks.fetch_add(1, Ordering::Relaxed);
+            for i in 0..class.len() {
+                for j in i + 1..class.len() {
+                    if let (Out::Rows(a), Out::Rows(b)) = (&outs[i], &outs[j]) {
+                        if !val::same_bag(a, b) {
+                            self.failing.fetch_add(1, Ordering::Relaxed);
+                            let mut ws: Vec<String> = hist.iter().filter(|o| !is_read(o)).map(|o| label_of(o)).collect();
+                            ws.sort();
+                            ws.dedup();
+                            let key = format!("pair|{}|{}|{}", class[i], class[j], ws.join(","));
+                            if !self.seen_cases.lock().unwrap().insert(key) {
+                                continue;
+                            }
+                            // witness: the writes of the history (empty cache), then the two reads one
+                            // after the other: the second is served from the entry of the first
+                            let mut h: Vec<String> = hist.iter().filter(|o| !is_read(o)).cloned().collect();
+                            h.push(class[i].clone());
+                            h.push(class[j].clone());
+                            report_case("lib", self.init, &h, |x| lib_last_differs(self.init, x), rep);
+                        }
+                    }
+                }
+            }
+        }
+    }
+}
+
+impl Spec for LibSpec {
+    type M = Arc<Vec<Entry>>;
+
+    fn init(&self) -> Vec<Node<Self::M>> {
+        vec![Node { db: lib_init(self.init), model: Arc::new(vec![]), hist: vec![] }]
+    }
+
+    fn alphabet(&self, _db: &Database, _m: &Self::M, _h: &[String]) -> Vec<String> {
+        self.alphabet.clone()
+    }
+
+    fn apply(&self, db: &mut Database, op: &str) -> Out {
+        if is_read(op) {
+            exec::select(db, op) // the uncached execution on the current database
+        } else {
+            exec::exec(db, op)
+        }
+    }
+
+    fn step(&self, _pre: &Database, m: &Self::M, op: &str, post: &Database, out: &Out, hist: &[String], rep: &Report) -> Option<Self::M> {
+        let cache = rebuild(m);
+        if is_read(op) {
+            self.c.reads.fetch_add(1, Ordering::Relaxed);
+            let (served, hit, reg) = proto_read(&cache, post, op);
+            if hit {
+                self.c.hits.fetch_add(1, Ordering::Relaxed);
+                let h = QuerySignature::from_sql(op).hash();
+                if m.iter().any(|e| QuerySignature::from_sql(&e.text).hash() == h && e.text != op) {
+                    self.c.hits_other_text.fetch_add(1, Ordering::Relaxed);
+                }
+            }
+            if let Out::Rows(r) = &served {
+                self.outcomes.lock().unwrap().insert(vcore::util::hash64(format!("{:?}", val::bag(r)).as_bytes()));
+                let mut ok = self.ok_reads.lock().unwrap();
+                if !ok.contains(op) {
+                    ok.insert(op.to_string());
+                }
+            } else {
+                self.c.read_errors.fetch_add(1, Ordering::Relaxed);
+            }
+            if differs(&served, out) {
+                self.failing.fetch_add(1, Ordering::Relaxed);
+                let h = QuerySignature::from_sql(op).hash();
+                let owner = m.iter().find(|e| QuerySignature::from_sql(&e.text).hash() == h);
+                let born = owner.map(|e| e.born).unwrap_or(0);
+                let mut ws: Vec<String> = hist[born.min(hist.len())..].iter().filter(|o| !is_read(o)).map(|o| label_of(o)).collect();
+                ws.sort();
+                ws.dedup();
+                let key = format!("read|{}|{}|{}", op, owner.map(|e| e.text.as_str()).unwrap_or("-"), ws.join(","));
+                if self.seen_cases.lock().unwrap().insert(key) {
+                    report_case("lib", self.init, hist, |x| lib_last_differs(self.init, x), rep);
+                }
+                return None; // the state holds a wrong entry: reported, not expanded
+            }
+            if let (Some(tables), Out::Rows(rows)) = (reg, &served) {
+                self.c.misses_inserted.fetch_add(1, Ordering::Relaxed);
+                let mut v: Vec<Entry> = (**m).clone();
+                v.push(Entry { text: op.to_string(), rows: rows.clone(), tables, born: hist.len() });
+                v.sort_by(|a, b| a.text.cmp(&b.text));
+                return Some(Arc::new(v));
+            }
+            Some(m.clone())
+        } else {
+            self.c.writes.fetch_add(1, Ordering::Relaxed);
+            proto_write(&cache, _pre, op); // the catalog before the statement executes, like the adapter
+            let v: Vec<Entry> = m.iter().filter(|e| cache.contains(&QuerySignature::from_sql(&e.text))).cloned().collect();
+            self.c.entries_invalidated.fetch_add((m.len() - v.len()) as u64, Ordering::Relaxed);
+            self.c.entries_surviving_a_write.fetch_add(v.len() as u64, Ordering::Relaxed);
+            let n0 = rep.n_signatures();
+            self.pair_check(post, hist, rep);
+            let _ = n0;
+            Some(Arc::new(v))
+        }
+    }
+
+    fn model_key(&self, m: &Self::M) -> String {
+        let mut s = String::new();
+        for e in m.iter() {
+            s.push_str(&e.text);
+            s.push('\u{2}');
+            s.push_str(&format!("{:?}", val::exact_bag(&e.rows)));
+            s.push('\u{2}');
+            s.push_str(&e.tables.join(","));
+            s.push('\u{3}');
+        }
+        s
+    }
+}
+
+fn reads_of(groups: &[&str]) -> Vec<String> {
+    READS.iter().filter(|(g, _, _)| groups.is_empty() || groups.contains(g)).map(|(_, _, s)| s.to_string()).collect()
+}
+
+fn writes_all() -> Vec<String> {
+    WRITES.iter().map(|(_, s)| s.to_string()).collect()
+}
+
+fn writes_fk() -> Vec<String> {
+    FK_WRITES.iter().map(|(_, s)| s.to_string()).collect()
+}
+
+fn groups() -> Vec<&'static str> {
+    let mut g: Vec<&'static str> = vec![];
+    for (x, _, _) in READS {
+        if !g.contains(x) {
+            g.push(x);
+        }
+    }
+    g
+}
+
+#[derive(Default)]
+struct Totals {
+    states: u64,
+    transitions: u64,
+    ok: u64,
+    err: u64,
+    panic: u64,
+    capped: bool,
+    samples: Vec<Vec<String>>,
+    searches: Vec<Value>,
+    counters: BTreeMap<&'static str, u64>,
+    outcomes: BTreeSet<u64>,
+    ok_reads: BTreeSet<String>,
+    failing: u64,
+}
+
+fn run_lib_search(name: &str, alphabet: Vec<String>, depth: usize, dedup: bool, caps: &Caps, rep: &Report, tot: &mut Totals) {
+    run_lib_search_from(0, name, alphabet, depth, dedup, caps, rep, tot)
+}
+
+fn run_lib_search_from(init: usize, name: &str, alphabet: Vec<String>, depth: usize, dedup: bool, caps: &Caps, rep: &Report, tot: &mut Totals) {
+    if let Ok(f) = std::env::var("CACHEACL_ONLY") {
+        // development aid: run only the searches whose name contains the filter
+        if !name.contains(&f) {
+            return;
+        }
+    }
+    let spec = LibSpec::new(init, alphabet);
+    let t0 = std::time::Instant::now();
+    let st = histmc::bfs(&spec, depth, dedup, rep, caps);
+    let secs = t0.elapsed().as_secs_f64();
+    tot.failing += spec.failing.load(Ordering::Relaxed);
+    tot.states += st.states;
+    tot.transitions += st.transitions;
+    tot.ok += st.ok_transitions;
+    tot.err += st.err_transitions;
+    tot.panic += st.panic_transitions;
+    tot.capped |= st.capped || st.depth_completed < depth;
+    if tot.samples.len() < 8 {
+        // the deepest recorded history of this search
+        if let Some(h) = st.samples.iter().max_by_key(|h| h.len()) {
+            tot.samples.push(h.clone());
+        }
+    }
+    tot.searches.push(json!({
+        "search": name, "init": LIB_INITS[init], "alphabet": spec.alphabet.len(), "depth": depth, "dedup": dedup,
+        "depth_completed": st.depth_completed, "states": st.states, "transitions": st.transitions,
+        "states_per_depth": st.per_depth_states, "capped": st.capped,
+        "signature_classes_with_several_texts": spec.classes.len(), "wall_s": (secs * 10.0).round() / 10.0,
+    }));
+    eprintln!("  lib search {:<40} depth {} states {:>8} transitions {:>9} {:.1}s", name, depth, st.states, st.transitions, secs);
+    let c = &spec.c;
+    for (k, v) in [
+        ("reads", &c.reads),
+        ("hits", &c.hits),
+        ("hits_served_from_an_entry_of_another_text", &c.hits_other_text),
+        ("misses_inserted", &c.misses_inserted),
+        ("read_errors", &c.read_errors),
+        ("writes", &c.writes),
+        ("entries_invalidated_by_writes", &c.entries_invalidated),
+        ("entries_surviving_a_write", &c.entries_surviving_a_write),
+        ("equal_signature_class_checks", &c.pair_checks),
+    ] {
+        *tot.counters.entry(k).or_default() += v.load(Ordering::Relaxed);
+    }
+    tot.outcomes.extend(spec.outcomes.lock().unwrap().iter().cloned());
+    tot.ok_reads.extend(spec.ok_reads.lock().unwrap().iter().cloned());
+}
+
+// ------------------------------------------------------------------------------------------------
+// adapter driver
+// ------------------------------------------------------------------------------------------------
+
+mod adapter {
+    use super::*;
+    use crate::slt::db_adapter::VibeSqlDB;
+    use sqllogictest::{AsyncDB, DBOutput};
+
+    #[derive(Debug, Clone, PartialEq)]
+    pub enum AOut {
+        Rows(Vec<Vec<String>>),
+        Done(u64),
+        Err(String),
+    }
+
+    impl AOut {
+        pub fn brief(&self) -> String {
+            match self {
+                AOut::Rows(r) => format!("rows{:?}", r),
+                AOut::Done(n) => format!("ok({})", n),
+                AOut::Err(e) => format!("err: {}", vcore::util::trunc(e, 120)),
+            }
+        }
+    }
+
+    static ENV_LOCK: Mutex<()> = Mutex::new(());
+
+    pub fn own_environment() {
+        for k in ["SQLLOGICTEST_VERBOSE", "SQLLOGICTEST_WORKER_ID", "SQLLOGICTEST_PROFILE", "SQLLOGICTEST_QUERY_TIMEOUT_MS", "SQLLOGICTEST_CACHE_SIZE", "SQLLOGICTEST_LOG_QUERY_INTERVAL"] {
+            std::env::remove_var(k);
+        }
+        std::env::set_var("SQLLOGICTEST_TIMING", "0");
+        std::env::set_var("SQLLOGICTEST_QUERY_TIMEOUT_MS", "600000");
+    }
+
+    /// (adapter with the cache, adapter without): the environment is read by `VibeSqlDB::new`.
+    fn twins(batching: bool) -> (VibeSqlDB, VibeSqlDB) {
+        let _g = ENV_LOCK.lock().unwrap();
+        std::env::set_var("SQLLOGICTEST_INSERT_BATCHING", if batching { "1" } else { "0" });
+        std::env::set_var("SQLLOGICTEST_CACHE_ENABLED", "1");
+        let a = VibeSqlDB::new();
+        std::env::set_var("SQLLOGICTEST_CACHE_ENABLED", "0");
+        let b = VibeSqlDB::new();
+        (a, b)
+    }
+
+    fn run_one(rt: &tokio::runtime::Runtime, db: &mut VibeSqlDB, sql: &str) -> AOut {
+        match catch_unwind(AssertUnwindSafe(|| rt.block_on(db.run(sql)))) {
+            Ok(Ok(DBOutput::Rows { rows, .. })) => {
+                let mut r = rows;
+                r.sort();
+                AOut::Rows(r)
+            }
+            Ok(Ok(DBOutput::StatementComplete(n))) => AOut::Done(n),
+            Ok(Ok(_)) => AOut::Err("unknown DBOutput variant".into()),
+            Ok(Err(e)) => AOut::Err(format!("{}", e)),
+            Err(p) => AOut::Err(format!("PANIC {}", exec::panic_msg(p))),
+        }
+    }
+
+    pub fn differs(cached: &AOut, plain: &AOut) -> bool {
+        match (cached, plain) {
+            (AOut::Rows(a), AOut::Rows(b)) => a != b,
+            (AOut::Rows(_), AOut::Err(_)) | (AOut::Err(_), AOut::Rows(_)) => true,
+            _ => false,
+        }
+    }
+
+    /// Runs prelude + history on both twins (fresh thread: the adapter pools its Database in a
+    /// thread-local and would hand a recycled one to the next instance). Returns per history step
+    /// (with cache, without cache).
+    pub fn run(batching: bool, init: &[&str], hist: &[String]) -> Vec<(AOut, AOut)> {
+        common::on_fresh_thread(|| {
+            let rt = tokio::runtime::Builder::new_current_thread().enable_time().build().expect("tokio runtime");
+            let (mut a, mut b) = twins(batching);
+            for s in init {
+                let x = run_one(&rt, &mut a, s);
+                let y = run_one(&rt, &mut b, s);
+                if matches!(x, AOut::Err(_)) || matches!(y, AOut::Err(_)) {
+                    panic!("adapter prelude statement failed: {} => {:?} / {:?}", s, x, y);
+                }
+            }
+            let mut out = vec![];
+            for s in hist {
+                let x = run_one(&rt, &mut a, s);
+                let y = run_one(&rt, &mut b, s);
+                out.push((x, y));
+            }
+            out
+        })
+    }
+}
+
+const ADAPTER_INITS: &[(&str, &[&str])] =
+    &[("plain", &[]), ("in-transaction", &["BEGIN"]), ("in-transaction-after-a-write", &["BEGIN", "INSERT INTO u VALUES (9, 90)"])];
+
+fn adapter_init(idx: usize) -> Vec<&'static str> {
+    let mut v: Vec<&'static str> = PRELUDE.to_vec();
+    v.extend(ADAPTER_INITS[idx].1.iter());
+    v
+}
+
+/// Adapter driver: does the last step (a read) differ between the twin with and without cache?
+/// `Err` = the twins disagree on a *write* (machinery problem: the cache must not influence writes).
+fn adapter_last_differs(batching: bool, init: usize, hist: &[String]) -> Result<Option<String>, String> {
+    let obs = adapter::run(batching, &adapter_init(init), hist);
+    for (i, (x, y)) in obs.iter().enumerate() {
+        if !is_read(&hist[i]) && x != y {
+            let both_err = matches!(x, adapter::AOut::Err(_)) && matches!(y, adapter::AOut::Err(_));
+            if !both_err {
+                return Err(format!("twins disagree on `{}`: {} vs {}", hist[i], x.brief(), y.brief()));
+            }
+        }
+    }
+    let Some((x, y)) = obs.last() else { return Ok(None) };
+    let last = hist.last().unwrap();
+    if is_read(last) && adapter::differs(x, y) {
+        Ok(Some(format!("`{}` served {} by the adapter with its result cache, {} by the same adapter with the cache disabled", last, x.brief(), y.brief())))
+    } else {
+        Ok(None)
+    }
+}
+
+struct AdapterStats {
+    histories: u64,
+    statements_executed: u64,
+    failing: u64,
+    per_depth: Vec<u64>,
+    samples: Vec<Vec<String>>,
+}
+
+/// Plain tree of histories (the adapter's state cannot be cloned): every history of length
+/// <= `full_depth` that ends in a read; for lengths up to `focus_depth` every history that ends in
+/// a read and contains an earlier read with the same `QuerySignature` (a read without such a
+/// predecessor can only be a miss). Every history is run from scratch on both twins.
+fn run_adapter_search(alphabet: &[String], full_depth: usize, focus_depth: usize, batching: bool, init: usize, rep: &Report) -> AdapterStats {
+    let mut st = AdapterStats { histories: 0, statements_executed: 0, failing: 0, per_depth: vec![], samples: vec![] };
+    let seen: Mutex<BTreeSet<String>> = Mutex::new(BTreeSet::new());
+    let n = alphabet.len();
+    let reads: Vec<bool> = alphabet.iter().map(|o| is_read(o)).collect();
+    let sigs: Vec<u64> = alphabet.iter().map(|o| if is_read(o) { QuerySignature::from_sql(o).hash() } else { 0 }).collect();
+    let init_len = adapter_init(init).len() as u64;
+    for d in 1..=focus_depth.max(full_depth) {
+        let mut cand: Vec<Vec<u16>> = vec![];
+        let mut idx = vec![0usize; d];
+        'outer: loop {
+            let last = idx[d - 1];
+            if reads[last] && (d <= full_depth || idx[..d - 1].iter().any(|i| reads[*i] && sigs[*i] == sigs[last])) {
+                cand.push(idx.iter().map(|i| *i as u16).collect());
+            }
+            let mut k = d;
+            loop {
+                if k == 0 {
+                    break 'outer;
+                }
+                k -= 1;
+                idx[k] += 1;
+                if idx[k] < n {
+                    break;
+                }
+                idx[k] = 0;
+            }
+        }
+        let res: Vec<bool> = vcore::util::par_map(&cand, |_, h| {
+            let hist: Vec<String> = h.iter().map(|i| alphabet[*i as usize].clone()).collect();
+            match adapter_last_differs(batching, init, &hist) {
+                Ok(None) => false,
+                Ok(Some(_)) => {
+                    let mut ls: Vec<String> = hist.iter().map(|o| label_of(o)).collect();
+                    ls.sort();
+                    ls.dedup();
+                    let key = format!("{}|{}", label_of(hist.last().unwrap()), ls.join(","));
+                    if seen.lock().unwrap().insert(key) {
+                        report_case(
+                            if batching { "adapter" } else { "adapter-nobatch" },
+                            init,
+                            &hist,
+                            |h| adapter_last_differs(batching, init, h).ok().flatten(),
+                            rep,
+                        );
+                    }
+                    true
+                }
+                Err(e) => {
+                    rep.machinery_error(format!("C25 adapter: {} in {:?}", e, hist));
+                    false
+                }
+            }
+        });
+        st.histories += cand.len() as u64;
+        st.statements_executed += cand.len() as u64 * 2 * (d as u64 + init_len);
+        st.failing += res.iter().filter(|x| **x).count() as u64;
+        st.per_depth.push(cand.len() as u64);
+        if let Some(h) = cand.last() {
+            if st.samples.len() < 2 {
+                st.samples.push(h.iter().map(|i| alphabet[*i as usize].clone()).collect());
+            }
+        }
+    }
+    st
+}
+
+// ------------------------------------------------------------------------------------------------
+// entry points
+// ------------------------------------------------------------------------------------------------
+
+pub fn run(tier: &str) -> i32 {
+    let mut rep = Report::new("C25", tier, "model_checking");
+    let thorough = tier == "thorough";
+    adapter::own_environment();
+
+    // ---- lib driver
+    let mut tot = Totals::default();
+    // bounds are fixed by design, not by the clock (the time cap is a safety net and is reported)
+    let (d_full, d_slice, d_guard) = if thorough { (0, 5, 2) } else { (0, 3, 2) };
+    let caps = Caps { max_states: 4_000_000, max_secs: if thorough { 1500.0 } else { 600.0 } };
+    // stateless guard first (plain tree, no dedup)
+    let mut full: Vec<String> = reads_of(&[]);
+    full.extend(writes_all());
+    full.extend(writes_fk());
+    if thorough {
+        run_lib_search("guard:all-reads+all-writes (no dedup)", full.clone(), d_guard, false, &caps, &rep, &mut tot);
+    } else {
+        // quick: two reads per group (the first and the last) and all writes
+        let mut g: Vec<String> = vec![];
+        for grp in groups() {
+            let r = reads_of(&[grp]);
+            g.push(r[0].clone());
+            if r.len() > 1 {
+                g.push(r[r.len() - 1].clone());
+            }
+        }
+        g.extend(writes_all());
+        g.extend(writes_fk());
+        run_lib_search("guard:two-reads-per-group+all-writes (no dedup)", g, d_guard, false, &caps, &rep, &mut tot);
+    }
+    if d_full > 0 {
+        run_lib_search("full:all-reads+all-writes", full, d_full, true, &caps, &rep, &mut tot);
+    }
+    for g in groups() {
+        let mut a = reads_of(&[g]);
+        if g == "fk" {
+            a.extend(writes_fk());
+        } else if thorough {
+            a.extend(writes_all());
+        } else {
+            // quick: the writes on the tables the slice's texts read
+            let scope: &[&str] = match g {
+                "lit" | "litws" | "num" | "comment" => &[":t"],
+                "sellit" | "qident" => &[":q", ":t"],
+                _ => &[":u", ":v"],
+            };
+            a.extend(WRITES.iter().filter(|(l, _)| scope.iter().any(|x| l.ends_with(x))).map(|(_, s)| s.to_string()));
+        }
+        run_lib_search(&format!("slice:{}+writes", g), a, d_slice + if g == "fk" { 1 } else { 0 }, true, &caps, &rep, &mut tot);
+    }
+    {
+        // a table written by a trigger of the statement's target
+        let mut a: Vec<String> = READS.iter().filter(|(_, l, _)| ["qid-k", "sel-x", "lit-a"].contains(l)).map(|(_, _, s)| s.to_string()).collect();
+        a.extend(WRITES.iter().filter(|(l, _)| ["insert:t", "update:t", "insert:q", "insert-select:t"].contains(l)).map(|(_, s)| s.to_string()));
+        run_lib_search_from(1, "slice:trigger(t writes q)", a, d_slice + 1, true, &caps, &rep, &mut tot);
+    }
+    let never_ok: Vec<String> = READS.iter().filter(|(_, _, s)| !tot.ok_reads.contains(*s)).map(|(_, l, _)| l.to_string()).collect();
+
+    // ---- adapter driver
+    let mut aalpha: Vec<String> = vec![];
+    let adapter_reads: &[&str] = if thorough {
+        &["lit-a", "lit-A", "lit-a-kwcase", "qid-k", "qid-K", "comment-newline", "comment-space", "scan", "star", "qualified", "join", "derived", "union-right", "cte", "view", "in-subquery", "exists", "scalar-select-list", "scalar-binop", "having", "fk-child"]
+    } else {
+        &["lit-a", "lit-A", "qid-k", "qid-K", "star", "join", "union-right", "cte", "view", "in-subquery", "scalar-select-list", "fk-child"]
+    };
+    for (_, l, s) in READS {
+        if adapter_reads.contains(l) {
+            aalpha.push(s.to_string());
+        }
+    }
+    let adapter_writes: &[&str] = if thorough {
+        &["insert:t", "update:t", "insert:u", "update:u", "delete:u", "truncate:u", "drop:u", "create:u", "insert:q", "drop-view:v", "create-view:v"]
+    } else {
+        &["insert:t", "insert:u", "update:u", "delete:u", "drop:u", "create:u", "drop-view:v", "create-view:v"]
+    };
+    for (l, s) in WRITES {
+        if adapter_writes.contains(l) {
+            aalpha.push(s.to_string());
+        }
+    }
+    for (_, s) in ADAPTER_EXTRA_WRITES {
+        aalpha.push(s.to_string());
+    }
+    for (l, s) in FK_WRITES {
+        if ["delete-parent:p", "update-parent-key:p"].contains(l) {
+            aalpha.push(s.to_string());
+        }
+    }
+    // both tiers: every history of <= 2 statements, and every history of 3 statements that ends in a
+    // read and contains an earlier read with the same signature; thorough has the larger alphabet
+    // and all five (insert batching, initial state) configurations
+    let (a_full, a_focus) = (2, 3);
+    let mut a_searches = vec![];
+    let mut a_hist = 0u64;
+    let mut a_steps = 0u64;
+    let mut a_failing = 0u64;
+    let a_capped = false;
+    let mut a_samples: Vec<Vec<String>> = vec![];
+    // (insert batching, initial state, full depth, focused depth)
+    let configs: Vec<(bool, usize, usize, usize)> = if thorough {
+        vec![(true, 0, a_full, a_focus), (true, 2, a_full, a_focus), (true, 1, a_full, a_focus), (false, 0, a_full, a_focus), (false, 2, a_full, a_focus)]
+    } else {
+        vec![(true, 0, a_full, a_focus), (true, 2, a_full, a_focus)]
+    };
+    for (batching, init, a_full, a_focus) in configs {
+        let t0 = std::time::Instant::now();
+        let st = run_adapter_search(&aalpha, a_full, a_focus, batching, init, &rep);
+        eprintln!(
+            "  adapter search batching={} init={} full depth {} focused depth {} histories {} {:.1}s",
+            batching, ADAPTER_INITS[init].0, a_full, a_focus, st.histories, t0.elapsed().as_secs_f64()
+        );
+        a_hist += st.histories;
+        a_steps += st.statements_executed;
+        a_failing += st.failing;
+        a_samples.extend(st.samples.iter().take(1).cloned());
+        a_searches.push(json!({
+            "insert_batching": batching, "init": ADAPTER_INITS[init].0, "alphabet": aalpha.len(),
+            "all_histories_ending_in_a_read_up_to_depth": a_full, "histories_with_an_earlier_equal_signature_read_up_to_depth": a_focus,
+            "histories_executed_on_both_twins": st.histories, "per_depth": st.per_depth, "statements_executed": st.statements_executed,
+            "failing": st.failing,
+        }));
+    }
+    let a_reads = a_hist;
+
+    // ---- evidence
+    rep.set("states", json!(tot.states));
+    rep.set("transitions", json!(tot.transitions));
+    rep.set("traces_validated_against_impl", json!(tot.transitions + a_reads));
+    rep.set("transition_outcomes", json!({"ok": tot.ok, "err": tot.err, "panic": tot.panic}));
+    rep.set("lib_searches", json!(tot.searches));
+    rep.set("lib_protocol_counters", json!(tot.counters));
+    rep.set("distinct_read_results", json!(tot.outcomes.len()));
+    rep.set("lib_failing_cases_observed", json!(tot.failing));
+    rep.set("reads_that_never_executed_ok", json!(never_ok));
+    rep.set("adapter_searches", json!(a_searches));
+    rep.set("adapter_histories", json!(a_hist));
+    rep.set("adapter_statements_executed", json!(a_steps));
+    rep.set("adapter_reads_checked", json!(a_reads));
+    rep.set("adapter_failing_cases_observed", json!(a_failing));
+    rep.set("alphabet_reads", json!(READS.len()));
+    rep.set("alphabet_writes", json!(WRITES.len() + FK_WRITES.len()));
+    rep.set("exhaustive", json!(!tot.capped && !a_capped));
+    let mut samples = tot.samples.clone();
+    samples.extend(a_samples);
+    rep.set("samples", json!(samples));
+    let mut vac: Vec<String> = vec![];
+    for k in ["hits", "hits_served_from_an_entry_of_another_text", "entries_invalidated_by_writes", "entries_surviving_a_write"] {
+        if tot.counters.get(k).copied().unwrap_or(0) == 0 {
+            vac.push(k.to_string());
+        }
+    }
+    rep.set("vacuous_mechanisms", json!(vac));
+    rep.set(
+        "rule",
+        json!("lib driver: BFS over all histories of reads and writes on (real Database, real QueryResultCache contents), states merged on Database fingerprint + cache entries; at every read the served bag must equal the uncached execution on the current database, after every write all alphabet texts with equal QuerySignature must have equal uncached results. adapter driver: every history (plain tree) is run through tests/sqllogictest/db_adapter.rs twice, with and without its cache; every read must agree"),
+    );
+    rep.assume("the adapter's Database is private: adapter histories are explored by replay without state merging");
+    rep.assume("SET SCHEMA / session state changes are not part of the alphabet (the property quantifies over reads and writes)");
+    println!(
+        "C25 lib: states={} transitions={} (ok={} err={}) distinct_read_results={} counters={:?}",
+        tot.states, tot.transitions, tot.ok, tot.err, tot.outcomes.len(), tot.counters
+    );
+    println!("C25 lib: reads that never executed ok: {:?}", never_ok);
+    println!("C25 adapter: histories={} reads_checked_on_both_twins={} statements={}", a_hist, a_reads, a_steps);
+    rep.finish()
+}
+
+pub fn replay(case: &Value) -> i32 {
+    adapter::own_environment();
+    let driver = case["driver"].as_str().unwrap_or("lib");
+    let steps: Vec<String> = case["steps"].as_array().map(|a| a.iter().filter_map(|x| x.as_str().map(|s| s.to_string())).collect()).unwrap_or_default();
+    println!("driver: {}", driver);
+    for s in PRELUDE {
+        println!("prelude: {}", s);
+    }
+    if driver == "lib" {
+        let init = case["init"].as_u64().unwrap_or(0) as usize;
+        println!("initial state: {}", LIB_INITS[init.min(LIB_INITS.len() - 1)]);
+        let mut r = LibRun::new(init.min(LIB_INITS.len() - 1));
+        for op in &steps {
+            let o = r.step(op);
+            match &o.served {
+                Some(s) => println!(
+                    "{}\n   served   => {}{}\n   uncached => {}{}",
+                    op,
+                    s.brief(),
+                    if o.hit { format!("  [hit{}]", o.hit_owner.as_ref().filter(|t| *t != op).map(|t| format!(" on the entry of `{}`", t)).unwrap_or_default()) } else { "  [miss]".into() },
+                    o.uncached.brief(),
+                    if differs(s, &o.uncached) { "   <-- DIFFERS" } else { "" }
+                ),
+                None => println!("{}\n   => {}", op, o.uncached.brief()),
+            }
+        }
+    } else {
+        let batching = driver != "adapter-nobatch";
+        let init = case["init"].as_u64().unwrap_or(0) as usize;
+        let obs = adapter::run(batching, &adapter_init(init.min(ADAPTER_INITS.len() - 1)), &steps);
+        for (op, (x, y)) in steps.iter().zip(obs.iter()) {
+            println!(
+                "{}\n   with cache    => {}\n   without cache => {}{}",
+                op,
+                x.brief(),
+                y.brief(),
+                if is_read(op) && adapter::differs(x, y) { "   <-- DIFFERS" } else { "" }
+            );
+        }
+    }
+    0
 }
